@@ -18,6 +18,9 @@ BINOPS = {
 }  # fmt: skip
 
 
+RAISED_IN_OWN_LINE = {}  # "<op>:<exception> at histories.py:<line>" -> count
+
+
 def family(e):
     from barril.units.exceptions import QuantityValidationError
     from barril.units.unit_database import UnitsError
@@ -257,6 +260,14 @@ def execute(env, op):
     except HarnessBug:
         raise
     except Exception as e:
+        tb = e.__traceback__
+        while tb.tb_next is not None:
+            tb = tb.tb_next
+        if tb.tb_frame.f_code.co_filename == __file__ or tb.tb_frame.f_code.co_filename.endswith("workloads/histories.py"):
+            # raised by the interpreter's own line, not inside barril: an unsupported operation (no such method,
+            # operands Python cannot combine) - or a mistake of the interpreter; the evidence names the line
+            k = "%s:%s at histories.py:%d" % (name, type(e).__name__, tb.tb_lineno)
+            RAISED_IN_OWN_LINE[k] = RAISED_IN_OWN_LINE.get(k, 0) + 1
         return ("exc", type(e).__name__, family(e)), None
     try:
         c = canon(r)
